@@ -13,7 +13,7 @@ running their continuations; "exactly once" for the continuation is therefore st
 completed by an envelope the requester dequeued, i.e. while it keeps running.
 
 Model: Model/C16.lean.  All theorems are for every configuration (installed or not, default mode,
-limit) and every script of events (requests with per-call mode, ordinary messages, replies incl.
+limit, actor or grain target — Request / RequestGrain) and every script of events (requests with per-call mode, ordinary messages, replies incl.
 duplicates, timeouts, cancels, late Then, hold/release batching of the mailbox, shutdown) — `run`.
 Tie: differential run of a real requester/responder pair (harness/verifdrv/c16) against `run`.
 -/
@@ -36,9 +36,9 @@ theorem run_inv_gen (ops : List Op) (s : St) (h : Inv s) : ∀ r ∈ run s ops, 
     · exact inv_step h op
     · exact ih _ (inv_step h op) r hr
 
-theorem run_inv (inst : Bool) (m : Mode) (max : Nat) (ops : List Op) :
-    ∀ r ∈ run (St.init inst m max) ops, Inv r.1 :=
-  run_inv_gen ops _ (inv_init inst m max)
+theorem run_inv (inst : Bool) (m : Mode) (max : Nat) (g : Bool) (ops : List Op) :
+    ∀ r ∈ run (St.init inst m max g) ops, Inv r.1 :=
+  run_inv_gen ops _ (inv_init inst m max g)
 
 /-! ### clauses -/
 
@@ -193,7 +193,7 @@ theorem C16_on_turn (s : St) (op : Op) (hT : ∀ k, op ≠ .T k) : offTurn (step
 
 /-- C16 over the model: in every state reached by any script from any configuration -/
 def C16_full : Prop :=
-  ∀ (inst : Bool) (m : Mode) (max : Nat) (ops : List Op), ∀ r ∈ run (St.init inst m max) ops,
+  ∀ (inst : Bool) (m : Mode) (max : Nat) (grainTarget : Bool) (ops : List Op), ∀ r ∈ run (St.init inst m max grainTarget) ops,
     let s := r.1
     -- a continuation runs at most once, exactly once when the request was completed by a dequeued envelope
     (∀ k, cbCount k s.log ≤ 1)
@@ -207,8 +207,8 @@ def C16_full : Prop :=
     ∧ (∀ op, (∀ k, op ≠ .T k) → offTurn (step s op).1.log = offTurn s.log)
 
 theorem C16_holds : C16_full := by
-  intro inst m max ops r hr
-  have h := run_inv inst m max ops r hr
+  intro inst m max g ops r hr
+  have h := run_inv inst m max g ops r hr
   have hc := C16_counters h
   exact ⟨C16_once h, fun k q hg a b c => C16_exactly_once h k q hg a b c, C16_limit h, hc.1, hc.2.1, hc.2.2,
     fun msg a b c => C16_stash_gate _ msg a b c, fun op hT => C16_on_turn _ op hT⟩
